@@ -7,7 +7,7 @@
 //             ukf  GaussianFilter( UKFPrediction(additive LTI + exogenous), UKFCorrection(additive LTI) )
 //             sis  SIS( DrawParticles(LTI + exogenous), BootstrapCorrection(LTI, likelihood) )
 //             gpf  SIS( GPFPrediction(KFPrediction), GPFCorrection(likelihood, KFCorrection, transition) )
-//   stdout:  ok kind=<kind> steps=<filter steps run> cmds=<commands issued> skips=<skip commands accepted>
+//   stdout:  ok kind=<kind> steps=<filter steps run> cmds=<commands issued> <command>=<count>… skip:<name>=<accepted>/<rejected>…
 //
 // The harness adds no synchronisation of its own between the two threads apart from counters that
 // are std::atomic with relaxed ordering (no happens-before edge for ThreadSanitizer); every model
@@ -168,6 +168,33 @@ static std::unique_ptr<FilteringAlgorithm> make(const std::string& kind, unsigne
     return nullptr;
 }
 
+static const char* const kNames[6] = {"prediction", "state", "exogenous", "correction", "all", "nonsense"};
+
+// the controller: every command is counted (controller thread only) and forwarded to the filter
+struct Ctl {
+    FilteringAlgorithm& f;
+    long n_run = 0, n_reset = 0, n_reboot = 0, n_teardown = 0, n_wait = 0, n_step_number = 0, n_is_running = 0;
+    long skip_ok[6] = {0, 0, 0, 0, 0, 0}, skip_rej[6] = {0, 0, 0, 0, 0, 0};
+    explicit Ctl(FilteringAlgorithm& fa) : f(fa) { }
+    void run() { ++n_run; f.run(); }
+    void reset() { ++n_reset; f.reset(); }
+    void reboot() { ++n_reboot; f.reboot(); }
+    void teardown() { ++n_teardown; f.teardown(); }
+    void wait() { ++n_wait; f.wait(); }
+    void step_number() { ++n_step_number; (void) f.step_number(); }
+    void is_running() { ++n_is_running; (void) f.is_running(); }
+    void skip(int n, bool on) {
+        bool ok = false;
+        try { ok = f.skip(kNames[n], on); } catch (const std::exception&) { }
+        ++(ok ? skip_ok : skip_rej)[n];
+    }
+    long total() const {
+        long t = n_run + n_reset + n_reboot + n_teardown + n_wait + n_step_number + n_is_running;
+        for (int i = 0; i < 6; ++i) t += skip_ok[i] + skip_rej[i];
+        return t;
+    }
+};
+
 static void pause_us(std::mt19937& r, long max_us) { if (max_us > 0) usleep(static_cast<useconds_t>(r() % (max_us + 1))); }
 
 // wait (without synchronising with the filtering thread) until it has run a few more steps
@@ -180,54 +207,50 @@ static std::string run_case(const std::string& kind, unsigned seed, long rounds,
     std::unique_ptr<FilteringAlgorithm> f = make(kind, seed);
     if (!f) return "bad-kind";
     std::mt19937 r(seed * 7919u + 13u);
-    static const char* names[] = {"prediction", "state", "exogenous", "correction", "all", "nonsense"};
-    long cmds = 0, skips = 0;
+    Ctl c(*f);
     g_steps.store(0, std::memory_order_relaxed);
     if (!f->boot()) return "boot-failed";
-    (void) f->is_running(); (void) f->step_number(); cmds += 2;     // queries before the first run()
-    f->run(); ++cmds;
+    c.is_running(); c.step_number();                 // queries before the first run()
+    c.run();
     let_it_step(3);
     for (long k = 0; k < rounds; ++k) {
         // every skip name, on and off, while the filter is stepping
         for (int n = 0; n < 6; ++n) {
             bool on = ((r() >> 3) & 1u) != 0;
-            try { if (f->skip(names[n], on)) ++skips; } catch (const std::exception&) { }
-            ++cmds; let_it_step(2); pause_us(r, pause);
-            try { if (f->skip(names[n], !on)) ++skips; } catch (const std::exception&) { }
-            ++cmds; let_it_step(2); pause_us(r, pause);
+            c.skip(n, on); let_it_step(2); pause_us(r, pause);
+            c.skip(n, !on); let_it_step(2); pause_us(r, pause);
         }
         // every query and lifecycle command at least once per round, in every phase of the recursion
-        (void) f->is_running(); pause_us(r, pause); (void) f->step_number(); cmds += 2;
-        f->reset(); ++cmds; let_it_step(2);
-        f->reboot(); ++cmds; (void) f->is_running(); pause_us(r, pause); (void) f->step_number(); cmds += 2;
-        f->run(); ++cmds; let_it_step(2);
+        c.is_running(); pause_us(r, pause); c.step_number();
+        c.reset(); let_it_step(2);
+        c.reboot(); c.is_running(); pause_us(r, pause); c.step_number();   // on its way to / parked in the wait
+        c.run(); let_it_step(2);
         // queries and lifecycle commands in a seeded order
         for (int j = 0; j < 8; ++j) {
             switch (r() % 8) {
-                case 0: (void) f->step_number(); break;
-                case 1: (void) f->is_running(); break;
-                case 2: f->reset(); let_it_step(2); break;
-                case 3:
-                    // queries while the filter is on its way to / parked in the condition wait
-                    f->reboot(); (void) f->is_running(); (void) f->step_number(); pause_us(r, pause);
-                    (void) f->is_running(); (void) f->step_number(); cmds += 4;
-                    f->run(); ++cmds; let_it_step(2); break;
-                case 4: f->run(); break;
-                case 5: try { f->skip(names[r() % 5], (r() & 1u) != 0); } catch (const std::exception&) { } break;
-                case 6: (void) f->step_number(); (void) f->is_running(); break;
-                default: f->reset(); break;
+                case 0: c.step_number(); break;
+                case 1: c.is_running(); break;
+                case 2: c.reset(); let_it_step(2); break;
+                case 3: c.reboot(); c.is_running(); c.step_number(); pause_us(r, pause); c.is_running(); c.step_number(); c.run(); let_it_step(2); break;
+                case 4: c.run(); break;
+                case 5: c.skip(static_cast<int>(r() % 5), (r() & 1u) != 0); break;
+                case 6: c.step_number(); c.is_running(); break;
+                default: c.reset(); break;
             }
-            ++cmds; pause_us(r, pause);
+            pause_us(r, pause);
         }
     }
-    for (int n = 0; n < 5; ++n) { try { f->skip(names[n], false); } catch (const std::exception&) { } ++cmds; }
+    for (int n = 0; n < 5; ++n) c.skip(n, false);
     let_it_step(2);
-    f->teardown(); ++cmds;
-    (void) f->is_running(); (void) f->step_number(); cmds += 2;     // queries between teardown and join
-    f->wait(); ++cmds;
-    (void) f->is_running(); (void) f->step_number();                // after the join: ordered, never a race
+    c.teardown();
+    c.is_running(); c.step_number();                 // queries between teardown and join
+    c.wait();
+    (void) f->is_running(); (void) f->step_number(); // after the join: ordered, never a race
     std::ostringstream os;
-    os << "ok kind=" << kind << " steps=" << g_steps.load(std::memory_order_relaxed) << " cmds=" << cmds << " skips=" << skips;
+    os << "ok kind=" << kind << " steps=" << g_steps.load(std::memory_order_relaxed) << " cmds=" << c.total()
+       << " run=" << c.n_run << " reset=" << c.n_reset << " reboot=" << c.n_reboot << " teardown=" << c.n_teardown << " wait=" << c.n_wait
+       << " step_number=" << c.n_step_number << " is_running=" << c.n_is_running;
+    for (int n = 0; n < 6; ++n) os << " skip:" << kNames[n] << "=" << c.skip_ok[n] << "/" << c.skip_rej[n];
     return os.str();
 }
 
